@@ -128,13 +128,14 @@ def record_graphs(cfg, seed, histories, jit_step=True):
             if "cdist_alt" in n:
                 n["cdist"] = n.pop("cdist_alt")
         h2 = arun.AsyncHarness(cfg2, seed=seed, jit_step=jit_step)
-        eps = []
-        for i, hist in enumerate(histories):
-            got, _ = arun.run_history(h2 if i % 2 else h, list(hist), eps0=i, vary_rng=True)
-            eps += got
     else:
-        eps, _ = arun.run_history(h, [c for hist in histories for c in hist], vary_rng=True)
-    eps = [e for e in eps if "record_raw" in e]
+        h2 = h
+    # one history at a time; the episode number in the graph state (it is part of every payload) is the index the episode will have in the
+    # stacked graph: an episode without a record (get_record() raises when a connection consumed nothing) does not use up a number
+    eps = []
+    for i, hist in enumerate(histories):
+        got, _ = arun.run_history(h2 if i % 2 else h, list(hist), eps0=len(eps), vary_rng=True)
+        eps += [e for e in got if "record_raw" in e]
     if not eps:
         raise NoRecord("no episode produced a record (a connection consumed no message: get_record() raises, outside the properties)")
     exp = base.ExperimentRecord(episodes=[e["record_raw"] for e in eps])
